@@ -5,6 +5,7 @@ From PushModel Require Import Base.Sx Base.Machine Base.ListOps Base.F32 Model.I
   Model.RegistryAll Spec.ListSpec.
 Import ListNotations.
 Open Scope Z_scope.
+Open Scope list_scope.
 
 (* ================= find = n-th element of the type-filtered preorder listing ================= *)
 Section FindSpec.
@@ -161,3 +162,198 @@ Section ValSpec.
     split; [exact find_nth|]. intros t n. split; [apply bval_spec|split; [apply ival_spec|apply fval_spec]].
   Qed.
 End ValSpec.
+
+(* ================= designate ================= *)
+Section Designate.
+  Context {FO : FloatOps}.
+
+  Lemma cnt_cons k c r : cnt k (c :: r) = if c =? k then S (cnt k r) else cnt k r.
+  Proof. unfold cnt. cbn [filter]. rewrite (Z.eqb_sym k c). destruct (c =? k); reflexivity. Qed.
+  Lemma cnt_nil k : cnt k [] = 0%nat.
+  Proof. reflexivity. Qed.
+  Lemma cnt_app k a b : cnt k (a ++ b) = (cnt k a + cnt k b)%nat.
+  Proof. unfold cnt. now rewrite filter_app, app_length. Qed.
+  Lemma cnt_rev k l : cnt k (rev l) = cnt k l.
+  Proof.
+    induction l as [|x r IH]; [reflexivity|]. cbn [rev]. rewrite cnt_app, IH, !cnt_cons, cnt_nil.
+    destruct (x =? k); lia.
+  Qed.
+
+  Lemma skipn_cons_nth {A} (l : list A) : forall n x r,
+    skipn n l = x :: r -> nth_error l n = Some x /\ skipn (S n) l = r.
+  Proof.
+    induction l as [|y t IH]; intros [|n] x r H; cbn [skipn nth_error] in *; try discriminate.
+    - inversion H. split; reflexivity.
+    - apply IH in H. exact H.
+  Qed.
+  Lemma skipn_nil_nth {A} (l : list A) : forall n,
+    skipn n l = [] -> nth_error l n = None /\ skipn (S n) l = [].
+  Proof.
+    induction l as [|y t IH]; intros [|n] H; cbn [skipn nth_error] in *; try discriminate; auto.
+  Qed.
+  Lemma skipn_map {A B} (f : A -> B) l : forall n, skipn n (map f l) = map f (skipn n l).
+  Proof. induction l as [|y t IH]; intros [|n]; cbn [skipn map]; auto. Qed.
+
+  Ltac stack_fin E :=
+    let E1 := fresh "Hn" in let E2 := fresh "Hs" in
+    destruct E as [E1 E2]; rewrite ?nth_error_map, E1; rewrite ?E2;
+    cbn [option_map fst snd skipn map
+         st_bool st_code st_exec st_float st_index st_int st_name st_bvec st_fvec st_ivec st_input st_output
+         st_graph st_bind st_cfg st_quote st_send set_bool set_code set_exec set_float set_int set_name set_bvec
+         set_fvec set_ivec];
+    reflexivity.
+  Ltac stack_case :=
+    match goal with
+    | |- context [nth_error (map ?f ?l) ?n] =>
+        let E := fresh "E" in
+        destruct (skipn n l) eqn:E;
+        [apply skipn_nil_nth in E | apply skipn_cons_nth in E]; stack_fin E
+    | |- context [nth_error ?l ?n] =>
+        let E := fresh "E" in
+        destruct (skipn n l) eqn:E;
+        [apply skipn_nil_nth in E | apply skipn_cons_nth in E]; stack_fin E
+    end.
+
+  Lemma designate_step_inv seen s0 acc sid :
+    designate_step (acc, drop_counts seen s0) sid =
+    (match nth_error (stack_items sid s0) (cnt sid seen) with Some x => x :: acc | None => acc end,
+     drop_counts (sid :: seen) s0).
+  Proof.
+    destruct s0 as [sb sc se sf six si sn sbv sfv siv sin sout sg sbd scf sq ssd].
+    unfold designate_step, stack_items, drop_stack. cbn [snd fst].
+    unfold drop_counts at 1 2 3 4 5 6 7 8 9 10 11 12 13 14 15 16 17 18.
+    cbn [st_bool st_code st_exec st_float st_index st_int st_name st_bvec st_fvec st_ivec st_input st_output
+         st_graph st_bind st_cfg st_quote st_send set_bool set_code set_exec set_float set_int set_name set_bvec
+         set_fvec set_ivec].
+    unfold drop_counts. rewrite !cnt_cons.
+    cbn [st_bool st_code st_exec st_float st_index st_int st_name st_bvec st_fvec st_ivec st_input st_output
+         st_graph st_bind st_cfg st_quote st_send].
+    destruct (sid =? BOOL_ID) eqn:E1; [apply Z.eqb_eq in E1; subst sid; cbv [BOOL_ID BVEC_ID CODE_ID EXEC_ID FLOAT_ID FVEC_ID INT_ID IVEC_ID NAME_ID Z.eqb Pos.eqb]; stack_case|].
+    destruct (sid =? BVEC_ID) eqn:E2; [apply Z.eqb_eq in E2; subst sid; cbv [BOOL_ID BVEC_ID CODE_ID EXEC_ID FLOAT_ID FVEC_ID INT_ID IVEC_ID NAME_ID Z.eqb Pos.eqb]; stack_case|].
+    destruct (sid =? CODE_ID) eqn:E3; [apply Z.eqb_eq in E3; subst sid; cbv [BOOL_ID BVEC_ID CODE_ID EXEC_ID FLOAT_ID FVEC_ID INT_ID IVEC_ID NAME_ID Z.eqb Pos.eqb]; stack_case|].
+    destruct (sid =? EXEC_ID) eqn:E4; [apply Z.eqb_eq in E4; subst sid; cbv [BOOL_ID BVEC_ID CODE_ID EXEC_ID FLOAT_ID FVEC_ID INT_ID IVEC_ID NAME_ID Z.eqb Pos.eqb]; stack_case|].
+    destruct (sid =? FLOAT_ID) eqn:E5; [apply Z.eqb_eq in E5; subst sid; cbv [BOOL_ID BVEC_ID CODE_ID EXEC_ID FLOAT_ID FVEC_ID INT_ID IVEC_ID NAME_ID Z.eqb Pos.eqb]; stack_case|].
+    destruct (sid =? FVEC_ID) eqn:E6; [apply Z.eqb_eq in E6; subst sid; cbv [BOOL_ID BVEC_ID CODE_ID EXEC_ID FLOAT_ID FVEC_ID INT_ID IVEC_ID NAME_ID Z.eqb Pos.eqb]; stack_case|].
+    destruct (sid =? INT_ID) eqn:E7; [apply Z.eqb_eq in E7; subst sid; cbv [BOOL_ID BVEC_ID CODE_ID EXEC_ID FLOAT_ID FVEC_ID INT_ID IVEC_ID NAME_ID Z.eqb Pos.eqb]; stack_case|].
+    destruct (sid =? IVEC_ID) eqn:E8; [apply Z.eqb_eq in E8; subst sid; cbv [BOOL_ID BVEC_ID CODE_ID EXEC_ID FLOAT_ID FVEC_ID INT_ID IVEC_ID NAME_ID Z.eqb Pos.eqb]; stack_case|].
+    destruct (sid =? NAME_ID) eqn:E9; [apply Z.eqb_eq in E9; subst sid; cbv [BOOL_ID BVEC_ID CODE_ID EXEC_ID FLOAT_ID FVEC_ID INT_ID IVEC_ID NAME_ID Z.eqb Pos.eqb]; stack_case|].
+    destruct (cnt sid seen); reflexivity.
+  Qed.
+
+  Lemma drop_counts_nil s : drop_counts [] s = s.
+  Proof. destruct s; reflexivity. Qed.
+  Lemma drop_counts_ext a b s : (forall k, cnt k a = cnt k b) -> drop_counts a s = drop_counts b s.
+  Proof. intro H. unfold drop_counts. now rewrite !H. Qed.
+
+  Lemma designate_fold ids : forall seen s0 acc,
+    fold_left designate_step ids (acc, drop_counts seen s0) =
+    (rev (picked seen ids s0) ++ acc, drop_counts (rev ids ++ seen) s0).
+  Proof.
+    induction ids as [|sid r IH]; intros seen s0 acc; [reflexivity|].
+    cbn [fold_left]. rewrite designate_step_inv, IH. cbn [picked rev]. rewrite <- app_assoc. cbn [app].
+    destruct (nth_error (stack_items sid s0) (cnt sid seen)); [|reflexivity].
+    cbn [rev]. now rewrite <- app_assoc.
+  Qed.
+
+  (* the pass and the per-occurrence description agree *)
+  Lemma designate_picked ids s :
+    designate ids s = (IList (rev (picked [] ids s)), drop_counts ids s).
+  Proof.
+    unfold designate. pose proof (designate_fold ids [] s []) as H. rewrite drop_counts_nil in H.
+    rewrite H. cbn [fst snd].
+    rewrite !app_nil_r. f_equal. apply drop_counts_ext. intro k. apply cnt_rev.
+  Qed.
+
+  (* ---- the model's load_items is the pass ---- *)
+  Lemma take_id_spec sid s :
+    take_id sid s = match stack_items sid s with
+                    | x :: _ => Some (x, drop_stack sid 1 s)
+                    | [] => None
+                    end.
+  Proof.
+    unfold take_id, stack_items, drop_stack.
+    repeat (destruct (sid =? _); [match goal with |- context [match ?f s with _ => _ end] => destruct (f s) end; reflexivity|]).
+    reflexivity.
+  Qed.
+
+  Lemma load_ids_fold ids : forall s acc,
+    fold_left designate_step ids (acc, s) = (rev (fst (load_ids ids s)) ++ acc, snd (load_ids ids s)).
+  Proof.
+    induction ids as [|sid r IH]; intros s acc; [reflexivity|].
+    cbn [fold_left load_ids]. unfold designate_step at 2. cbn [fst snd]. rewrite take_id_spec.
+    destruct (stack_items sid s) as [|x rest] eqn:E.
+    - apply IH.
+    - rewrite IH. destruct (load_ids r (drop_stack sid 1 s)) as [xs s2]. cbn [fst snd rev].
+      now rewrite <- app_assoc.
+  Qed.
+
+  Lemma load_ids_designate ids s :
+    (mk_record (fst (load_ids ids s)), snd (load_ids ids s)) = designate ids s.
+  Proof. unfold designate, mk_record. rewrite load_ids_fold. cbn [fst snd]. now rewrite app_nil_r. Qed.
+
+  Lemma list_add_designate s :
+    list_add s = Ok (match st_ivec s with
+                     | ids :: r => let d := designate ids (set_ivec s r) in push_code (snd d) (fst d)
+                     | [] => s
+                     end).
+  Proof.
+    unfold list_add, load_items. destruct (st_ivec s) as [|ids r]; [reflexivity|].
+    rewrite <- load_ids_designate. destruct (load_ids ids (set_ivec s r)). reflexivity.
+  Qed.
+
+  (* ---- conservation ---- *)
+  Lemma perm_skip_app {A} (x : A) a R R' :
+    Permutation (x :: R') R -> Permutation (x :: a ++ R') (a ++ R).
+  Proof.
+    intro H. eapply Permutation_trans; [apply Permutation_middle|]. now apply Permutation_app_head.
+  Qed.
+
+  Ltac perm_case sid K :=
+    let H := fresh "H" in let E := fresh "E" in
+    destruct (sid =? K) eqn:H;
+    [ apply Z.eqb_eq in H; subst sid; intro E;
+      match type of E with
+      | map _ ?l = _ => destruct l; [discriminate|]; cbn [map] in E; inversion E; subst
+      | ?l = _ => subst l
+      end;
+      unfold all_items, source_ids; cbn [flat_map]; unfold stack_items;
+      cbv [BOOL_ID BVEC_ID CODE_ID EXEC_ID FLOAT_ID FVEC_ID INT_ID IVEC_ID NAME_ID Z.eqb Pos.eqb];
+      cbn [st_bool st_code st_exec st_float st_index st_int st_name st_bvec st_fvec st_ivec skipn map
+           set_bool set_code set_exec set_float set_int set_name set_bvec set_fvec set_ivec];
+      repeat first [exact (Permutation_refl _) | apply perm_skip_app] |].
+
+  Lemma designate_step_perm acc s sid :
+    Permutation (acc ++ all_items s)
+                (fst (designate_step (acc, s) sid) ++ all_items (snd (designate_step (acc, s) sid))).
+  Proof.
+    unfold designate_step. cbn [fst snd].
+    destruct (stack_items sid s) as [|x rest] eqn:E; [apply Permutation_refl|]. cbn [fst snd].
+    apply Permutation_sym. change ((x :: acc) ++ all_items (drop_stack sid 1 s))
+      with (x :: acc ++ all_items (drop_stack sid 1 s)).
+    apply perm_skip_app. revert E.
+    destruct s as [sb sc se sf six si sn sbv sfv siv sin sout sg sbd scf sq ssd].
+    unfold stack_items at 1. unfold drop_stack.
+    cbn [st_bool st_code st_exec st_float st_index st_int st_name st_bvec st_fvec st_ivec st_input st_output
+         st_graph st_bind st_cfg st_quote st_send].
+    perm_case sid BOOL_ID. perm_case sid BVEC_ID. perm_case sid CODE_ID. perm_case sid EXEC_ID.
+    perm_case sid FLOAT_ID. perm_case sid FVEC_ID. perm_case sid INT_ID. perm_case sid IVEC_ID.
+    perm_case sid NAME_ID.
+    discriminate.
+  Qed.
+
+  Lemma designate_fold_perm ids : forall acc s,
+    Permutation (acc ++ all_items s)
+                (fst (fold_left designate_step ids (acc, s)) ++ all_items (snd (fold_left designate_step ids (acc, s)))).
+  Proof.
+    induction ids as [|sid r IH]; intros acc s; [apply Permutation_refl|].
+    cbn [fold_left]. eapply Permutation_trans; [apply (designate_step_perm acc s sid)|].
+    destruct (designate_step (acc, s) sid) as [acc1 s1]. apply IH.
+  Qed.
+
+  Definition record_children (t : item) : list item := match t with IList l => l | _ => [] end.
+
+  Lemma designate_conserves ids s :
+    Permutation (all_items s)
+                (record_children (fst (designate ids s)) ++ all_items (snd (designate ids s))).
+  Proof. exact (designate_fold_perm ids [] s). Qed.
+End Designate.
